@@ -356,8 +356,8 @@ def run_excel(case, ctx, rng):
       ctx.violation("xlsx_first_column", "sheet %s first column %r expected %r" % (name, head[:1], first), what="xlsx_first_column")
       return False
     labels = [h for h in head[1:] if h is not None]
-    if labels != sorted(columns):
-      ctx.violation("xlsx_labels", "sheet %s labels %s expected %s" % (name, labels, sorted(columns)), what="xlsx_labels")
+    if sorted(labels) != sorted(columns):   # the column ORDER is not fixed by the property; every label once
+      ctx.violation("xlsx_labels", "sheet %s labels %s expected (in any order) %s" % (name, labels, sorted(columns)), what="xlsx_labels")
       return False
     if len(rows) - 1 != n:
       ctx.violation("xlsx_rows", "sheet %s has %d rows expected %d" % (name, len(rows) - 1, n), what="xlsx_rows")
